@@ -3,12 +3,16 @@
 //!        pngv <prop> --replay-case "<case line>"
 mod c14;
 mod c01;
+mod c02;
 mod c04;
 mod c07;
 mod c08;
 mod c10;
 mod c11;
+mod c13;
+mod ops;
 mod c16;
+mod c18;
 mod c15;
 mod gen;
 mod pngbuild;
@@ -21,7 +25,9 @@ use util::Args;
 
 fn main() {
     // keep panic messages out of stderr noise: the harness records them itself
-    std::panic::set_hook(Box::new(|_| {}));
+    if std::env::var("VERIF_DEBUG").is_err() {
+        std::panic::set_hook(Box::new(|_| {}));
+    }
     let argv: Vec<String> = std::env::args().collect();
     if argv.len() < 2 {
         eprintln!("usage: pngv <prop> --tier T --seed N --out DIR");
@@ -64,12 +70,15 @@ fn main() {
             "C14" => c14::replay(case),
             "C15" => c15::replay(case),
             "C01" => c01::replay(case),
+            "C02" => c02::replay(case),
             "C04" => c04::replay(case),
             "C07" => c07::replay(case),
             "C08" => c08::replay(case),
             "C10" => c10::replay(case),
             "C11" => c11::replay(case),
+            "C13" => c13::replay(case),
             "C16" => c16::replay(case),
+            "C18" => c18::replay(case),
             _ => "unknown-property".to_string(),
         };
         println!("{}", r);
@@ -79,12 +88,15 @@ fn main() {
         "C14" => c14::run(&a),
         "C15" => c15::run(&a),
         "C01" => c01::run(&a),
+        "C02" => c02::run(&a),
         "C04" => c04::run(&a),
         "C07" => c07::run(&a),
         "C08" => c08::run(&a),
         "C10" => c10::run(&a),
         "C11" => c11::run(&a),
+        "C13" => c13::run(&a),
         "C16" => c16::run(&a),
+        "C18" => c18::run(&a),
         _ => {
             eprintln!("unknown property {}", prop);
             std::process::exit(2);
